@@ -19,6 +19,13 @@ Emitted data (all text is `list Z` of code points):
                               `if k not in self.throttle_per_user:` and stores a from_limits() object
   stream_stores_dict_by_reference : bool   ThrottleStreamIO.__init__ does `self.throttles = throttles`
   stream_ops : list (method * wait direction * append direction)  for read / readline / write
+  stream_wait_untimed : bool  ThrottleStreamIO.wait(name) creates one task `asyncio.create_task(t.wait())` per
+                              throttle and awaits ALL of them to completion (`asyncio.wait(tasks)` with no
+                              timeout / return_when, or an equivalent gather / loop), nothing in it is timed: it
+                              resumes when the last sleep ends, whatever read/write timeout the stream has
+  per_user_never_removed : bool   self.throttle_per_user is only tested (`in` / `not in`), subscripted for
+                              reading, and stored under the guard above: no pop / del / clear / re-assignment
+                              (every other use of the attribute makes the translator fail closed)
   timeout_facts : list (site * keyword * expression text)          (used by C16)
 """
 import ast
@@ -285,6 +292,95 @@ def scan_common(path, timeouts, flags, ops):
             raise Unclassified(f"ThrottleStreamIO.{name}: {len(waits)} wait / {len(appends)} append calls")
         ops.append((name, waits[0], appends[0]))
 
+    flags["wait_untimed"] = wait_shape(method("ThrottleStreamIO", "wait"))
+
+
+def wait_shape(m):
+    """ThrottleStreamIO.wait(self, name):
+           tasks = []
+           for throttle in self.throttles.values():
+               curr_throttle = getattr(throttle, name)
+               if curr_throttle.limit:
+                   tasks.append(asyncio.create_task(curr_throttle.wait()))
+           if tasks:
+               await asyncio.wait(tasks)
+    True iff the method awaits ALL the throttle wait tasks to completion and nothing in it is timed:
+      * every await is `asyncio.wait(<tasks>)` (one positional argument, no timeout= / return_when=),
+        `asyncio.gather(*<tasks>)`, or `await <t>` inside `for <t> in <tasks>` -- equivalent ways of waiting
+        for the last sleep to end -- and there is at least one;
+      * <tasks> starts as [] and is only ever appended `asyncio.create_task(<x>.wait())`;
+      * no wait_for / asyncio.timeout / `with` block / attribute or string mentioning a timeout appears."""
+    awaits = [n for n in ast.walk(m) if isinstance(n, ast.Await)]
+    if not awaits:
+        return False
+    names = set()
+    for aw in awaits:
+        v = aw.value
+        if isinstance(v, ast.Call) and ast.unparse(v.func) == "asyncio.wait":
+            if len(v.args) != 1 or not isinstance(v.args[0], ast.Name) or v.keywords:
+                return False
+            names.add(v.args[0].id)
+        elif isinstance(v, ast.Call) and ast.unparse(v.func) == "asyncio.gather":
+            if len(v.args) != 1 or not isinstance(v.args[0], ast.Starred) or not isinstance(v.args[0].value, ast.Name):
+                return False
+            if any(kw.arg != "return_exceptions" for kw in v.keywords):
+                return False
+            names.add(v.args[0].value.id)
+        elif isinstance(v, ast.Name):
+            par = aw
+            loop = None
+            while hasattr(par, "_parent"):
+                par = par._parent
+                if isinstance(par, ast.For) and isinstance(par.target, ast.Name) and par.target.id == v.id:
+                    loop = par
+                    break
+            if loop is None or not isinstance(loop.iter, ast.Name) or loop.orelse:
+                return False
+            if any(isinstance(n, (ast.Break, ast.Continue, ast.Return)) for n in ast.walk(loop)):
+                return False
+            names.add(loop.iter.id)
+        else:
+            return False
+    if len(names) != 1:
+        return False
+    tasks = names.pop()
+    inits = [
+        n for n in ast.walk(m)
+        if isinstance(n, ast.Assign) and any(isinstance(t, ast.Name) and t.id == tasks for t in n.targets)
+    ]
+    if len(inits) != 1 or not (isinstance(inits[0].value, ast.List) and not inits[0].value.elts):
+        return False
+    appended = 0
+    for n in ast.walk(m):
+        if isinstance(n, ast.Call) and isinstance(n.func, ast.Attribute) and isinstance(n.func.value, ast.Name) \
+                and n.func.value.id == tasks:
+            if n.func.attr != "append" or len(n.args) != 1:
+                return False
+            a = n.args[0]
+            ok = (
+                isinstance(a, ast.Call)
+                and ast.unparse(a.func) in ("asyncio.create_task", "asyncio.ensure_future")
+                and len(a.args) == 1
+                and not a.keywords
+                and isinstance(a.args[0], ast.Call)
+                and isinstance(a.args[0].func, ast.Attribute)
+                and a.args[0].func.attr == "wait"
+                and not a.args[0].args
+                and not a.args[0].keywords
+            )
+            if not ok:
+                return False
+            appended += 1
+        if isinstance(n, (ast.With, ast.AsyncWith)):
+            return False
+        if isinstance(n, ast.Attribute) and (n.attr in ("wait_for", "timeout_at") or "timeout" in n.attr):
+            return False
+        if isinstance(n, ast.Constant) and isinstance(n.value, str) and "timeout" in n.value and not isinstance(
+            getattr(n, "_parent", None), ast.Expr
+        ):
+            return False
+    return appended == 1
+
 
 def generate(src_dir):
     src = Path(src_dir)
@@ -338,5 +434,9 @@ def generate(src_dir):
         + emit.lst([f"({emit.text(a)}, {emit.text(b)}, {emit.text(c)})" for a, b, c in timeouts])
         + "."
     )
+    out.append(f"Definition stream_wait_untimed : bool := {emit.boolean(flags.get('wait_untimed', False))}.")
+    # scan_module raises Unclassified on any use of self.throttle_per_user other than `k [not] in`,
+    # `[k]` (load) and the guarded store: reaching this line means nothing removes or replaces entries
+    out.append("Definition per_user_never_removed : bool := true.")
     out.append("Definition translator_ok_wiring : bool := true.")
     return "\n".join(out) + "\n"
